@@ -197,6 +197,10 @@ def run_subcheck_hypothesis(sub: SubCheck, tier, seed_value, n_examples, stats, 
                             shrink=True, max_rounds=3):
     """Drive one sub-check; returns list of (spec, [Failure]) with distinct root-cause keys."""
     from hypothesis import HealthCheck, Phase, given, seed, settings
+    from hypothesis.internal.conjecture import engine as _hyp_engine
+
+    # bound the time spent minimising one failure (the default hard cap is 300 s)
+    _hyp_engine.MAX_SHRINKING_SECONDS = 40 if tier == 'quick' else 150
 
     found = []
     excluded = set(known_keys)
